@@ -125,7 +125,9 @@ package lib
 // leaves the previous one in force, and the manager is never left without a database (every lookup dereferences it)
 //@   atcall Errorf#2 before: snap geoLoadFailed := true
 //@   ensures @C19: defined(geoLoadFailed) ==> regManager.GeoIP == old(regManager.GeoIP)
-//@   ensures @C19: old(regManager.GeoIP) != nil ==> regManager.GeoIP != nil
+// (C03 as well: the connection handler consults the database for every connection; a station that dies on a nil
+// database resets every probe it was silently reading)
+//@   ensures @C19 @C03: old(regManager.GeoIP) != nil ==> regManager.GeoIP != nil
 
 // ---------------- C05: the proxy relays byte streams faithfully and tears both sides down ----------------
 
